@@ -62,8 +62,8 @@ Section P.
     gv O a i = gv O b i /\ gc O a i = gc O b i /\ ga O a i = ga O b i /\ gXb O a i = gXb O b i.
   Proof.
     intros W C G1 G2 Hi. cbv zeta.
-    destruct (uk_a_spec O M q qd qdd W C w1 G1 i Hi) as (A1 & B1 & C1 & D1).
-    destruct (uk_a_spec O M q qd qdd W C w2 G2 i Hi) as (A2 & B2 & C2 & D2).
+    destruct (uk_a_spec O M q qd qdd W C w1 G1 i Hi) as (A1 & B1 & C1 & D1 & _).
+    destruct (uk_a_spec O M q qd qdd W C w2 G2 i Hi) as (A2 & B2 & C2 & D2 & _).
     rewrite A1, A2, B1, B2, C1, C2, D1, D2. repeat split; reflexivity.
   Qed.
   (* point acceleration (6-D) with the update flag set *)
